@@ -65,7 +65,8 @@ class Session:
             self.pool = schwimmbad.SerialPool()
         self.workdir = workdir or tempfile.mkdtemp(prefix="sess", dir=os.environ.get("VERIF_WORK", None))
         self.joker = tj.TheJoker(prior, rng=self.gen, pool=self.pool, tempfile_path=os.path.join(self.workdir, "tj"))
-        collab.install_helper_factory(self.joker, self.rec)
+        if collab.install_helper_factory(self.joker, self.rec) is None:
+            self.observed = False
         self.events = []
         self.file = None
         self.ngroups = 0
@@ -98,7 +99,8 @@ class Session:
         self.joker = joker
         self.workdir = None
         self.fast_reference = True
-        collab.install_helper_factory(joker, self.rec)
+        if collab.install_helper_factory(joker, self.rec) is None:
+            self.observed = False
         self.events = []
         self.file = None
         self.ngroups = 0
@@ -173,6 +175,7 @@ class Session:
         rec.events = []
         rec.evaluated = []
         rec.ll_values = []
+        rec.unparsed = False
         if invoke is not None:
             arg, inmem = None, path in ("inmem", "inmem_file")
         elif path == "inmem":
@@ -227,6 +230,8 @@ class Session:
             ret["exc"] = "%s: %s" % (type(ex).__name__, str(ex)[:160])
             if invoke is not None:
                 pending_exc = ex
+        if rec.unparsed:
+            ev["observed"] = False          # the pool's tasks could not be read: judge this call from what it returned only
         self.events.append(ev)
         # recorder events, with the ratio attached to parent uniform draws
         seen_ll = []
@@ -284,7 +289,13 @@ class Session:
         rec.events = []
         rec.evaluated = []
         rec.ll_values = []
-        h = self.joker._make_joker_helper(self.data)
+        if hasattr(self.joker, "_make_joker_helper"):
+            h = self.joker._make_joker_helper(self.data)
+        else:
+            from thejoker.data_helpers import validate_prepare_data
+            all_data, _ids, trend_M = validate_prepare_data(self.data, self.prior.poly_trend, self.prior.n_offsets)
+            h = collab.make_rec_helper_class()(all_data, self.prior, trend_M)
+            h._rec = rec
         self.events.append({"ev": "Call", "api": "kernel", "path": "inmem", "nprior": 0, "maxpost": 0, "nlinear": 1,
                             "randomize": False, "logprobs": False, "all": False, "nreq": 0, "budget": 0, "initb": 0, "group": 0,
                             "nbatches": 0, "observed": True})
